@@ -66,6 +66,10 @@ CHECKS = {
          "Both roles. Every sequence of <= 2 SETTINGS frames (all pairs in thorough) from a 20-frame alphabet (each of the six parameters at boundary and invalid values, two parameters in one frame, a repeated id, an unknown id, empty) delivered at every position of a timeline of 1-2 exchanges (before / between / during), as separate events and as one burst, x header lists of 100 B / 32 KB x bodies of 0 / 20 KB. Oracle: one ACK per valid SETTINGS frame, none for an invalid one or later (server: GOAWAY with the RFC's code; client: no further stream on the connection); every frame after the ACK within the peer's MAX_FRAME_SIZE (header blocks cut into CONTINUATION frames); a stream opened only while fewer than the peer's MAX_CONCURRENT_STREAMS are open; every header block decodes in a strict RFC 7541 decoder holding the peer's limits, the first block after a HEADER_TABLE_SIZE reduction starts with a size update at or below the lowest value, the table never above the limit; the endpoint's own SETTINGS are on the wire (ENABLE_PUSH=0, MAX_CONCURRENT_STREAMS) and enforced (frame above the advertised size, PUSH_PROMISE with push disabled); exchanges complete intact under valid SETTINGS.",
          "The peer applies a value it advertised as soon as it has sent the SETTINGS frame. An ACK still queued when a connection error ends the connection may be lost. SETTINGS_MAX_HEADER_LIST_SIZE of the peer is advisory and not enforced on the sender. Canonical internal schedule between events (SETTINGS-vs-write races at lock granularity: C19).",
          "DESIGN.md §4 C18"),
+ "C19": ("stateless deviation-bounded schedule exploration (SPX) of the real goroutines under the controlled scheduler, built with -race on a race-transparent runtime; the race detector and the pool ownership tracker are the per-schedule oracles",
+         "Eight harnesses after a canonical prelude (handshake + one warm exchange): server S1 SETTINGS(table, window, frame size) vs handler completions vs next request vs PING; S2 RST_STREAM vs running handler vs next request; S3 ping / idle / request timers vs half-open request vs peer close; S4 streamed response vs WINDOW_UPDATEs vs disconnect in mid-frame; client S5 two callers vs responses vs Close; S6 request timeout vs late response vs new caller (Ctx reuse) vs SETTINGS; S7 GOAWAY vs new request vs close; S8 streamed upload vs window grants vs SETTINGS vs RST_STREAM. The environment (peer script, clock, handler releases, Close, new callers) runs as low-priority threads: the default schedule runs every environment step to quiescence; every other choice at a decision point (all channel ops, selects, mutex and atomic operations, transport reads/writes, goroutine starts, timer firings) is a deviation. All schedules with <= 2 (server) / <= 1 (client) deviations in quick, <= 3 / <= 2 in thorough, each under two pool policies (one LIFO list: maximal reuse, Put->Get edge reported to the detector; per-goroutine lists: no edge through the pool). Oracles on every schedule: race detector reports (read back from its log after each execution), pool tracker (double release, release of a context a handler still owns), no unrecovered panic, exactly-once resolution, prefix replay never diverges.",
+         "Race detection is happens-before over the program's own synchronisation as the shims report it (real atomics; mutex, RWMutex, WaitGroup, unbuffered channel, pool, timer and goroutine-start edges annotated; buffered channels are real channels). The detector keeps 4 accesses per 8-byte word, so a single execution of a racy schedule can stay silent (replay retries 5 times); weak-memory effects are not modelled. Unwinding of parked goroutines at the end of an execution is excluded.",
+         "DESIGN.md §4 C19"),
  "C02": ("exhaustive enumeration (ELX) of server response encodings, fragmentations and interleavings against the real Client.RoundTrip path (dial, handshake, both loops) under the controlled scheduler",
          "Request shapes (none / buffered / streamed declared / unknown / empty bodies, connection-specific fields) each checked at the scripted server; response header block split into HEADERS+CONTINUATION at every offset (pairs in thorough), every representation x Huffman choice, every chunking of a 3-byte body incl. empty and padded DATA frames and END_STREAM on an empty frame, a 40000-byte body; 2 (quick) / 3 (thorough) concurrent requests with every frame-level interleaving of their responses. Oracle: each request arrives once on the next odd id, intact; each caller gets exactly the status, fields and body sent on its own stream.",
          "Callers are started one at a time (submission races: C19). Derived fasthttp request headers (user-agent, content-length, content-type) are tolerated.",
